@@ -14,7 +14,6 @@ import (
 	"testing"
 	"time"
 
-	"github.com/IBM/TSS/mpc/bls"
 	"github.com/IBM/TSS/mpc/ps"
 	tss "github.com/IBM/TSS/types"
 	math "github.com/IBM/mathlib"
@@ -46,7 +45,7 @@ type cell struct {
 }
 
 func (k cell) id() string {
-	return fmt.Sprintf("%s/n%dt%d/dev%d/v%v/%s", k.Backend, k.NN, k.TT, k.Dev, k.Victims, k.Strategy)
+	return fmt.Sprintf("%s%s/n%dt%d/dev%d/v%v/%s", buildPrefix, k.Backend, k.NN, k.TT, k.Dev, k.Victims, k.Strategy)
 }
 
 func ids(n int) []uint16 {
@@ -490,7 +489,7 @@ func factory(k cell) (func(id uint16) tss.KeyGenerator, codec) {
 			return &ps.TPS{Logger: world.NopLogger{}, Party: id, Curve: curve, MessageLength: 1}
 		}, psCodec{}
 	}
-	return func(id uint16) tss.KeyGenerator { return &bls.TBLS{Logger: world.NopLogger{}, Party: id} }, blsCodec{}
+	return blsFactory(), blsCodec{}
 }
 
 func run(c *harness.C, k cell, r world.Chooser) *out {
@@ -615,53 +614,8 @@ func oracle(c *harness.C, k cell, o *out) string {
 	}
 	members := ids(k.NN)
 	if k.Backend == "bls" {
-		var pk0 []byte
-		signers := map[uint16]*bls.TBLS{}
-		for _, id := range done {
-			sg := &bls.TBLS{Logger: world.NopLogger{}, Party: id}
-			sg.Init(members, k.TT, nil)
-			if err := sg.SetShareData(o.res[id].Data); err != nil {
-				bad("share-usable", "c05-share-unusable", err.Error())
-				return outcome
-			}
-			pk, _ := sg.ThresholdPK()
-			if pk0 == nil {
-				pk0 = pk
-			} else if !bytes.Equal(pk, pk0) {
-				bad("identical-public-material", "c05-public-material-differs", fmt.Sprintf("honest parties %v completed with differing public material", done))
-				return outcome + " split"
-			}
-			signers[id] = sg
-		}
-		if strings.HasPrefix(k.Strategy, "S10") {
-			var pp bls.PublicParams
-			if _, err := asn1.Unmarshal(pk0, &pp); err == nil && bytes.Equal(pp.ThresholdPK, attackerKey().Bytes()) {
-				bad("commitment-binds", "c05-adaptive-key-accepted", fmt.Sprintf("honest parties %v completed with a threshold key chosen by the deviator after it saw their public keys (its commitment did not bind it): the deviator alone can sign", done))
-				return outcome + " rogue-key"
-			}
-		}
-		if len(done) >= k.TT {
-			var v bls.Verifier
-			if err := v.Init(pk0); err != nil {
-				bad("public-material-usable", "c05-verifier-init", err.Error())
-				return outcome
-			}
-			d := sha256.Sum256([]byte("c05"))
-			for _, sub := range subsetsOfSize(done, k.TT) {
-				var sigs [][]byte
-				for _, id := range sub {
-					sg, _ := signers[id].Sign(nil, d[:])
-					sigs = append(sigs, sg)
-				}
-				agg, err := v.AggregateSignatures(sigs, sub)
-				if err == nil {
-					err = v.Verify(d[:], agg)
-				}
-				if err != nil {
-					bad("honest-shares-sign", "c05-poisoned-key", fmt.Sprintf("honest parties %v completed but the shares of %v do not produce a signature that verifies under the reported key: %v", done, sub, err))
-					return outcome + " poisoned"
-				}
-			}
+		if suffix, stop := blsOracle(k, o, done, members, outcome, bad); stop {
+			return outcome + suffix
 		}
 	} else {
 		var pk0 []byte
@@ -806,7 +760,7 @@ func gen(c *harness.C) []harness.Case {
 		cfgs = map[string][]nt{"bls": {{3, 2}, {3, 3}, {4, 2}, {4, 3}, {4, 4}}, "ps": {{3, 2}, {3, 3}, {4, 3}}}
 	}
 	var cases []harness.Case
-	for _, be := range []string{"bls", "ps"} {
+	for _, be := range backendsLinked {
 		for _, x := range cfgs[be] {
 			for _, dev := range ids(x.n) {
 				if !c.Thorough() && x.n == 4 && dev != 2 {
